@@ -213,9 +213,9 @@ def oracle(ctx, seeds=None):
             mod, msh, disc, f = cfg1d.build(cfg)
             dt0 = float(np.min(disc.calc_timestep(f, 0.4)))
             ts = [dt0 * x for x in (0.5, 1.25, 1.5, 3.75)]
-            r0 = getattr(impl.integ, name)(msh, disc).solve(f, 0.4, ts)
+            r0 = getattr(impl.integ, name)(msh, disc).solve(f, 0.4, ts, stop={'tottime': ts[-1], 'maxit': 60})
             mods, mshs, discs, fs = build_with_length(sc_cfg, slen)
-            rs = getattr(impl.integ, name)(mshs, discs).solve(fs, 0.4, [t * tf for t in ts])
+            rs = getattr(impl.integ, name)(mshs, discs).solve(fs, 0.4, [t * tf for t in ts], stop={'tottime': ts[-1] * tf, 'maxit': 60})
             return r0, rs, mod.neq
         ok, out = impl.guarded(run)
         res.case(('units-solve', model, name, kb, kl))
@@ -223,6 +223,9 @@ def oracle(ctx, seeds=None):
         if not ok:
             res.fail('%s:units-solve-raised' % model, out, rp); continue
         r0, rs, neq = out
+        if any(q_.isnan() for q_ in r0) or any(q_.isnan() for q_ in rs):
+            # an unstable pairing (centered flux with a forward-Euler step, ...): the trajectory leaves the admissible set
+            res.count('units-solve-skipped-nan'); continue
         if len(r0) != len(rs) or [q_.it for q_ in r0] != [q_.it for q_ in rs]:
             res.fail('%s:units-solve:bookkeeping' % model, "rescaled twin (t*2^%d): %d snapshots with iteration tags %r, original %d with %r" % (kl - kb, len(rs), [q_.it for q_ in rs], len(r0), [q_.it for q_ in r0]), rp); continue
         for q0_, qs_ in zip(r0, rs):
